@@ -93,6 +93,8 @@ class ExprMixin:
                 vals.append(self.ev(x))
                 n += 1
         r = self.new_list(e, joins(vals), minlen=n)
+        if n == len(e.elts):
+            r = r.but(lo=n)           # exact length of a list literal (shape arguments)
         if vals and all(v.only('num', 'bool') for v in vals):
             r = r.but(ndim=1)
         return r
@@ -586,7 +588,11 @@ class ExprMixin:
         out = []
         if definite_fancy and not unknown:
             models.USED.add('A[index array / list / mask] (fancy indexing) [fresh]')
-            r = AV(['arr'], ndim=None)
+            fnd = None
+            fcs = [v for t, v in parts if t == 'fancy']
+            if nd is not None and len(fcs) == 1 and fcs[0].ndim == 1 and 'ellipsis' not in tags:
+                fnd = nd - nint + nnone
+            r = AV(['arr'], ndim=fnd)
             if base.objarr:
                 r = self.new_objarr(node, objelem)
             out.append(r)
@@ -625,7 +631,9 @@ class ExprMixin:
                 return joins(out)
             out.append(AV(['arr']))
         out.append(v)
-        if scalar_possible and nd is None or (nd is not None and scalar_possible):
+        if 'ellipsis' in tags or 'slice' in tags or nnone:
+            scalar_possible = False
+        if scalar_possible:
             out.append(NUM)
         if base.objarr:
             out.append(objelem)
